@@ -586,8 +586,12 @@ func genClientForm(rng *lib.Rng, s cfgSpec, canonical bool) (remote string, ct c
 		host = lib.Pick(rng, []string{"9.9.9.9", "2001:db8::dead", "169.254.1.1", "0.0.0.0", "255.255.255.255", "::", "::ffff:0.0.0.0", "224.0.0.1"})
 		ct.Form = "foreign"
 	default:
-		bad := lib.Pick(rng, []string{"", "garbage", "10.1.2.3", "10.1.2.3:80:90", ":80", "[::1", "*:80", "localhost:80", "@", "10.1.2.3.:80", "0x0a010203:80", "010.001.002.003:80"})
-		return bad, clientTruth{Form: "malformed", IP: bad}, ""
+		// RemoteAddr strings no transport produces; host = the host part where the string has the host:port form
+		// (entries that are not IP literals match a client only by the identical string), "\x00" = no host at all
+		bad := lib.Pick(rng, [][2]string{{"", "\x00"}, {"garbage", "\x00"}, {"10.1.2.3", "\x00"}, {"10.1.2.3:80:90", "\x00"}, {":80", ""}, {"[::1", "\x00"},
+			{"*:80", "*"}, {"localhost:80", "localhost"}, {"@", "\x00"}, {"10.1.2.3.:80", "10.1.2.3."}, {"0x0a010203:80", "0x0a010203"}, {"010.001.002.003:80", "010.001.002.003"},
+			{"10.1.2.0/24:80", "10.1.2.0/24"}})
+		return bad[0], clientTruth{Form: "malformed", IP: bad[1]}, ""
 	}
 	// re-spell
 	a, err := netip.ParseAddr(host)
@@ -1140,7 +1144,7 @@ func run(c *lib.Ctx) {
 		"only the safety direction decides for JSON-RPC/gRPC (a sentinel ran => allowed); loopback clients are outside the quantifier and only counted",
 		"eth clause: for configurations with a non-empty whitelist under either key, admission of each well-formed non-loopback address is compared between eth, JSON-RPC and gRPC using plain requests to a method the function lists allow, with valid credentials")
 
-	nCfg := c.N(30, 600)
+	nCfg := c.N(30, 400)
 	perCfg := c.N(200, 240)
 	if !c.Quick() {
 		perCfg = 240
